@@ -77,6 +77,13 @@ impl Fq2 {
         }
         let b = self.c1;
         let a = self.c0;
+        if b.is_zero() {
+            // an element of Fq: either a is a square in Fq, or -a/2 is (i^2 = -2)
+            return match a.sqrt() {
+                Some(y) => Some(Self::new(y, Fq::zero())),
+                None => (-a).div2().sqrt().map(|z| Self::new(Fq::zero(), z)),
+            };
+        }
         let bb = b.squared();
         let aa = a.squared();
         let u = aa + bb.double();
